@@ -73,3 +73,50 @@ def serve(chunks, addr=('10.0.0.9', 40001), process=None, count=None, **kw):
     connkey = "%s_%d" % (addr[0].replace('.', '_'), addr[1])
     leaked = connkey in enip_main.connections
     return conn.sent, conn.closed, err, len(calls), leaked
+
+
+class UDPConn(object):
+    def __init__(self):
+        self.sent = []
+
+    def sendto(self, data, addr):
+        self.sent.append((data, addr))
+        return len(data)
+
+
+class _ScriptEnd(Exception):
+    pass
+
+
+def serve_udp(datagrams, process=None, **kw):
+    """run the real enip_srv_udp over the scripted datagrams [(bytes, addr), ...] -> (list of (reply bytes, addr), number of
+    enip_process invocations with a request).  When the script is exhausted the control flag `done` is set (what main() does on shutdown)."""
+    conn = UDPConn()
+    script = list(datagrams)
+    control = cpppo.dotdict(latency=0.1, done=False, disable=False)
+
+    def recvfrom(c, timeout=None, maxlen=4096):
+        if script:
+            return script.pop(0)
+        control['done'] = True
+        raise _ScriptEnd()                          # leaves the parse through the loop's own error handler; the loop then sees `done`
+    saved = network.recvfrom
+    network.recvfrom = recvfrom
+    enip_main.network.recvfrom = recvfrom
+    calls = []
+    inner = process or logix.process
+
+    def counting(a, data, **k):
+        if data and 'request' in data and data.request:
+            calls.append(1)
+        return inner(a, data=data, **k)
+    kwds = dict(kw)
+    kwds['server'] = cpppo.dotdict(control=control)
+    try:
+        enip_main.enip_srv_udp(conn, name='enip_vrt_udp', enip_process=counting, **kwds)
+    finally:
+        network.recvfrom = saved
+        enip_main.network.recvfrom = saved
+        for a in set(x[1] for x in datagrams):
+            enip_main.connections.pop("%s_%d" % (a[0].replace('.', '_'), a[1]), None)
+    return conn.sent, len(calls)
